@@ -119,7 +119,7 @@ fn main() {
     let cases = Arc::new(cases);
     let next = Arc::new(AtomicUsize::new(0));
     let results = Arc::new(Mutex::new(Vec::<Value>::new()));
-    let totals = Arc::new(Mutex::new((0u64, 0u64, 0u64, 0u64)));
+    let totals = Arc::new(Mutex::new((0u64, 0u64, 0u64, 0u64, 0u64)));
     let mut hs = vec![];
     for _ in 0..threads {
         let (cases, next, results, totals) = (cases.clone(), next.clone(), results.clone(), totals.clone());
@@ -132,11 +132,12 @@ fn main() {
             let mut rng = Rng::new(seed ^ (ci as u64).wrapping_mul(31337));
             let hist = case["hist"].as_array().unwrap();
             let mut local: Vec<Value> = vec![];
-            let (mut steps, mut compared, mut interleaved) = (0u64, 0u64, 0u64);
+            let (mut steps, mut compared, mut interleaved, mut batched) = (0u64, 0u64, 0u64, 0u64);
             let r = catch(|| {
                 let mut files = files_of(&hist[0]["files"]);
                 let mut dep = hist[0]["dep"].as_bool().unwrap_or(true);
                 let mut host = fresh(&files, filler, dep);
+                let mut pending = Change::default();
                 for (si, st) in hist.iter().enumerate().skip(1) {
                     let op = &st["op"];
                     let kind = op["k"].as_str().unwrap();
@@ -161,7 +162,7 @@ fn main() {
                     let new_dep = st["dep"].as_bool().unwrap_or(dep);
                     // the change, built the way the server builds it: changed files only; roots when a file appears;
                     // the package graph alone when only a dependency edge changed
-                    let mut c = Change::default();
+                    let mut c = std::mem::take(&mut pending);
                     for (i, (_, t)) in new_files.iter().enumerate() {
                         if files.get(i).map(|(_, old)| old != t).unwrap_or(true) {
                             c.change_file(FileId(MOD0 + i as u32), t.as_str().into());
@@ -170,10 +171,19 @@ fn main() {
                     if new_dep != dep {
                         c.set_package_graph(graph(new_dep));
                     }
-                    if new_files.len() != files.len() {
+                    let renamed = new_files.iter().zip(files.iter()).any(|((n, _), (o, _))| n != o);
+                    if new_files.len() != files.len() || renamed {
                         structural(&new_files, filler, &mut c, if rng.chance(1, 2) { Some(new_dep) } else { None });
                     } else if new_dep == dep && rng.chance(1, 6) {
                         structural(&new_files, filler, &mut c, if rng.chance(1, 2) { Some(new_dep) } else { None });   // roots / graph replaced by equal ones
+                    }
+                    // batched with the next edit: the analysis gets both in one change (several contents for one file)
+                    if st["batched"].as_bool().unwrap_or(false) && si + 1 < hist.len() && hist[si + 1]["op"]["k"] != "query" {
+                        pending = c;
+                        files = new_files;
+                        dep = new_dep;
+                        batched += 1;
+                        continue;
                     }
                     host.apply_change(c);
                     files = new_files;
@@ -205,6 +215,7 @@ fn main() {
             t.1 += steps;
             t.2 += compared;
             t.3 += interleaved;
+            t.4 += batched;
             drop(t);
             results.lock().unwrap().extend(local);
         }).unwrap());
@@ -218,6 +229,6 @@ fn main() {
         writeln!(so, "{r}").unwrap();
     }
     let t = totals.lock().unwrap();
-    writeln!(so, "{}", json!({"kind": "summary", "histories": t.0, "steps": t.1, "answers_compared": t.2, "interleaved_queries": t.3,
+    writeln!(so, "{}", json!({"kind": "summary", "histories": t.0, "steps": t.1, "answers_compared": t.2, "interleaved_queries": t.3, "batched_edits": t.4,
         "mismatches": results.lock().unwrap().len()})).unwrap();
 }
